@@ -452,6 +452,14 @@ T("c01-twin-while-true-break", "C01", "_context.py", "while True / if not stack:
    "        while True:\n            if not self._teardown_callbacks:\n                break\n\n            callback, pass_exception = self._teardown_callbacks.pop()\n"))
 T("c01-twin-pop-minus-one", "C01", "_context.py", "explicit pop(-1)",
   ("self._teardown_callbacks.pop()\n", "self._teardown_callbacks.pop(-1)\n"))
+T("c01-twin-generator-drain", "C01", "_context.py", "the pop-until-empty loop is extracted into a private generator method",
+  ("        while self._teardown_callbacks:\n            callback, pass_exception = self._teardown_callbacks.pop()\n",
+   "        for callback, pass_exception in self._drain_teardown_callbacks():\n"),
+  ("    async def _run_teardown_callbacks(\n", "    def _drain_teardown_callbacks(self):\n        while self._teardown_callbacks:\n            yield self._teardown_callbacks.pop()\n\n    async def _run_teardown_callbacks(\n"))
+M("c01-generator-batch-drain", "C01", "_context.py", "C01.R1", "generator helper drains the stack batch-wise: callbacks registered during teardown run after the whole batch, not next",
+  ("        while self._teardown_callbacks:\n            callback, pass_exception = self._teardown_callbacks.pop()\n",
+   "        for callback, pass_exception in self._drain_teardown_callbacks():\n"),
+  ("    async def _run_teardown_callbacks(\n", "    def _drain_teardown_callbacks(self):\n        while self._teardown_callbacks:\n            callbacks, self._teardown_callbacks = self._teardown_callbacks, []\n            yield from reversed(callbacks)\n\n    async def _run_teardown_callbacks(\n"))
 T("c01-twin-rename", "C01", "_context.py", "rename locals of the runner",
   ("original_exception", "block_exception"), count=None)
 
@@ -719,6 +727,13 @@ M("c07-swallow-child-failure", "C07", "_component.py", "C07.R3", "a failed child
   (_CHILD_BLOCK, "            try:\n" + "".join("    " + l + "\n" if l else "\n" for l in _CHILD_BLOCK.rstrip("\n").split("\n")) + "            except ComponentStartError:\n                logger.exception(\"child failed\")\n"))
 M("c07-children-on-root-group", "C07", "_component.py", "C07.R4", "children spawned on the long-lived root task group",
   ("                    tg.start_soon(\n                        _start_component,", "                    context._context._task_group.start_soon(\n                        _start_component,"))
+M("c07-shielded-service-start", "C07", "_context.py", "C07.R4", "the service-task start handshake is shielded from cancellation: a timeout cannot stop a component stuck in it",
+  ("from anyio import (\n    create_task_group,\n)", "from anyio import (\n    CancelScope,\n    create_task_group,\n)"),
+  ("        task_handle.start_value = await self._task_group.start(\n            run_background_task, func, self, task_handle, name=task_handle.name\n        )\n        self.add_teardown_callback(finalize_service_task)",
+   "        with CancelScope(shield=True):\n            task_handle.start_value = await self._task_group.start(\n                run_background_task, func, self, task_handle, name=task_handle.name\n            )\n\n        self.add_teardown_callback(finalize_service_task)"))
+T("c07-twin-shielded-teardown", "C07", "_context.py", "teardown callbacks run in a shielded scope (not on the startup path; C07-neutral)",
+  ("from anyio import (\n    create_task_group,\n)", "from anyio import (\n    CancelScope,\n    create_task_group,\n)"),
+  ("                if isawaitable(retval):\n                    await retval\n            except BaseException as e:", "                if isawaitable(retval):\n                    with CancelScope(shield=True):\n                        await retval\n            except BaseException as e:"))
 M("c07-watchdog-half-timeout", "C07", "_component.py", "C07.R5", "watchdog sleeps for half the timeout",
   ("    await sleep(timeout)\n", "    await sleep(timeout / 2)\n"))
 M("c07-watchdog-returns", "C07", "_component.py", "C07.R5", "watchdog logs but does not raise",
